@@ -23,6 +23,16 @@
      R     ::= Ok(()) | Ok(b) | Err(self.error(ErrorCode::X)) | Err(self.peek_error(ErrorCode::X)) | self.f(buf) | self.f(e as char, buf)
      PAT   ::= _ | [x @] BP | Some(_ | x | [x @] BP) | None          BP ::= b'x' | b'x'..=b'y' | BP | BP | ( BP ) | _
 
+   Second family (tools/translate_cursor.py -> Gen/CursorTables.v, Proofs/CursorSrc.v): the buffer-less cursor functions ignore_integer /
+   ignore_decimal / ignore_exponent, parse_ident, parse_whitespace, parse_object_colon, end_seq, end_map, StreamDeserializer::peek_end_of_value,
+   has_next_element, has_next_key.  They never touch `buf` (the interpreter threads it through unchanged) and add:
+     if let PAT = tri!(SCRUT) { .. }                    SIfLet
+     for x in ident { .. }                              SFor x ident       (ident : &[u8] parameter; x : &u8, read as `*x`)
+     if COND { .. }  /  if COND { .. } else { .. }      SIf / SIfElse      COND ::= x == b'c' | x != *y | <bool variable or the `first` field>
+     let x = match tri!(SCRUT) { PAT => y, PAT => { ..diverges.. } };       SLetMatch
+     Ok(true) / Ok(false), Ok(other)                    ROkBool, ROkVar on an Option<u8> binder
+     PAT ::= .. | other (binds the whole scrutinee)  |  PAT | PAT (no binders)                PBindAny, PAlt
+
    `tri!(e)` is `match e { Ok(v) => v, Err(err) => return Err(err) }`: exactly [bind] of the [res] monad, which is how an I/O failure of the
    reader (`tm E = TFail kind`, surfacing from peek / next as `Err (Io kind) 0`) leaves every function at once.
    Loops and calls take explicit fuel: [exec] recurses on fuel only (one unit per nesting level, loop iteration and call);
@@ -38,12 +48,19 @@ Inductive pat :=
   | PByte (x : option string) (p : bpat)     (* [x @] BP     against a u8 *)
   | PSome (x : option string) (p : bpat)     (* Some([x @] BP) against an Option<u8>;  Some(x) = PSome (Some x) PWild *)
   | PNone                                    (* None *)
-  | PAny.                                    (* _ *)
+  | PAny                                     (* _ *)
+  | PBindAny (x : string)                    (* x : binds the whole scrutinee *)
+  | PAlt (a b : pat).                        (* P | Q at the top of an arm (no binders) *)
 Inductive scrut := ScPeekOrNull | ScPeek | ScNext | ScCall (f : string).
 Inductive rexpr :=
   | ROkUnit | ROkVar (x : string)
   | RErr (peeked : bool) (c : ecode)         (* Err(self.error(c)) : false,  Err(self.peek_error(c)) : true *)
-  | RCall (f : string) (arg : option string).
+  | RCall (f : string) (arg : option string)
+  | ROkBool (b : bool).
+Inductive cond :=
+  | CEqLit (x : string) (b : byte)           (* x == b'c' *)
+  | CNeVar (x y : string)                    (* x != *y *)
+  | CVar (x : string).                       (* a bool variable (the `first` field of SeqAccess / MapAccess is one) *)
 Inductive stmt :=
   | SEat | SPushLit (b : byte) | SPushVar (x : string)
   | SLetBool (x : string) (v : bool) | SSetBool (x : string) (v : bool)
@@ -51,14 +68,22 @@ Inductive stmt :=
   | SMatch (sc : scrut) (arms : list (pat * list stmt))
   | SWhileLet (p : pat) (sc : scrut) (body : list stmt)
   | SLoop (body : list stmt)
-  | SRet (r : rexpr).
+  | SRet (r : rexpr)
+  | SIfLet (p : pat) (sc : scrut) (body : list stmt)
+  | SFor (x xs : string) (body : list stmt)
+  | SIf (c : cond) (body : list stmt)
+  | SIfElse (c : cond) (a b : list stmt)
+  | SLetMatch (x : string) (sc : scrut) (arms : list (pat * letarm))
+with letarm :=
+  | AVar (y : string)                        (* PAT => y          : the value of the match *)
+  | ADiverge (body : list stmt).             (* PAT => { .. }     : a block that returns *)
 
 Record fdef := mkFn { fparam : option string; fbody : list stmt }.     (* the `buf: &mut String` parameter is implicit *)
 Definition table := list (string * fdef).
 
 (* ---- values, scoped locals -------------------------------------------------------------- *)
-Inductive val := VByte (b : byte) | VBool (b : bool).
-Inductive retval := RUnit | RByte (b : byte).
+Inductive val := VByte (b : byte) | VBool (b : bool) | VOpt (o : option byte) | VBytes (l : bytes).
+Inductive retval := RUnit | RByte (b : byte) | ROpt (o : option byte) | RBool (b : bool).
 Inductive sval := SvByte (b : byte) | SvOpt (o : option byte).        (* what a scrutinee evaluates to *)
 
 Definition frame := list (string * val).
@@ -94,18 +119,34 @@ Fixpoint bpat_match (p : bpat) (b : byte) : bool :=
   | PWild => true
   end.
 Definition bind_opt (x : option string) (b : byte) : frame := match x with Some n => [(n, VByte b)] | None => [] end.
-Definition pat_match (p : pat) (v : sval) : option frame :=
+Fixpoint pat_match (p : pat) (v : sval) {struct p} : option frame :=
   match p, v with
   | PAny, _ => Some []
   | PByte x q, SvByte b => if bpat_match q b then Some (bind_opt x b) else None
   | PSome x q, SvOpt (Some b) => if bpat_match q b then Some (bind_opt x b) else None
   | PNone, SvOpt None => Some []
+  | PBindAny x, SvByte b => Some [(x, VByte b)]
+  | PBindAny x, SvOpt o => Some [(x, VOpt o)]
+  | PAlt a c, _ => match pat_match a v with Some fr => Some fr | None => pat_match c v end
   | _, _ => None
   end.
 Fixpoint select (arms : list (pat * list stmt)) (v : sval) : option (frame * list stmt) :=
   match arms with
   | [] => None
   | (p, body) :: r => match pat_match p v with Some fr => Some (fr, body) | None => select r v end
+  end.
+
+Fixpoint select_let (arms : list (pat * letarm)) (v : sval) : option (frame * letarm) :=
+  match arms with
+  | [] => None
+  | (p, a) :: r => match pat_match p v with Some fr => Some (fr, a) | None => select_let r v end
+  end.
+
+Definition eval_cond (c : cond) (l : locals) : option bool :=
+  match c with
+  | CEqLit x b => match lookup x l with Some (VByte v) => Some (v =? b) | _ => None end
+  | CNeVar x y => match lookup x l, lookup y l with Some (VByte v), Some (VByte w) => Some (negb (v =? w)) | _, _ => None end
+  | CVar x => match lookup x l with Some (VBool v) => Some v | _ => None end
   end.
 
 (* ---- execution -------------------------------------------------------------------------- *)
@@ -127,6 +168,14 @@ Fixpoint exec_block (ex : exec_t) (ss : list stmt) (l : locals) (buf : bytes) (s
 Definition exec_scope (ex : exec_t) (fr : frame) (ss : list stmt) (l : locals) (buf : bytes) (s : st) : res outcome :=
   let* o := exec_block ex ss (fr :: l) buf s in
   match o with OFall l' buf' s' => Ok (OFall (tl l') buf' s') | ORet _ _ _ => Ok o end.
+
+(* `for x in xs { body }`: one scoped run of the body per element *)
+Fixpoint exec_for (ex : exec_t) (x : string) (body : list stmt) (bs : bytes) (l : locals) (buf : bytes) (s : st) : res outcome :=
+  match bs with
+  | [] => Ok (OFall l buf s)
+  | b :: r => let* o := exec_scope ex [(x, VByte b)] body l buf s in
+              match o with OFall l' buf' s' => exec_for ex x body r l' buf' s' | ORet _ _ _ => Ok o end
+  end.
 
 Fixpoint find_fn (fn : string) (T : table) : option fdef :=
   match T with [] => None | (n, d) :: r => if String.eqb fn n then Some d else find_fn fn r end.
@@ -156,13 +205,22 @@ Definition eval_scrut (call : call_t) (E : env) (sc : scrut) (s : st) (buf : byt
   | ScPeek => let* (o, s') := peek E s in Ok (SvOpt o, buf, s')
   | ScNext => let* (o, s') := next E s in Ok (SvOpt o, buf, s')
   | ScCall f => let* (r, buf', s') := call f None s buf in
-                match r with RByte b => Ok (SvByte b, buf', s') | RUnit => Panic end
+                match r with
+                | RByte b => Ok (SvByte b, buf', s')
+                | ROpt o => Ok (SvOpt o, buf', s')
+                | RUnit | RBool _ => Panic
+                end
   end.
 
 Definition eval_ret (call : call_t) (E : env) (r : rexpr) (l : locals) (buf : bytes) (s : st) : res outcome :=
   match r with
   | ROkUnit => Ok (ORet RUnit buf s)
-  | ROkVar x => match lookup x l with Some (VByte b) => Ok (ORet (RByte b) buf s) | _ => Panic end
+  | ROkVar x => match lookup x l with
+                | Some (VByte b) => Ok (ORet (RByte b) buf s)
+                | Some (VOpt o) => Ok (ORet (ROpt o) buf s)
+                | _ => Panic
+                end
+  | ROkBool b => Ok (ORet (RBool b) buf s)
   | RErr false c => error E s c
   | RErr true c => peek_error E s c
   | RCall f None => let* (r, buf', s') := call f None s buf in Ok (ORet r buf' s')
@@ -212,6 +270,39 @@ Fixpoint exec (fuel : nat) (E : env) (T : table) (x : stmt) (l : locals) (buf : 
       | ORet _ _ _ => Ok o
       end
     | SRet r => eval_ret (call_fn (exec f E T) T) E r l buf s
+    | SIfLet p sc body =>
+      let* (v, buf1, s1) := eval_scrut (call_fn (exec f E T) T) E sc s buf in
+      match pat_match p v with
+      | Some fr => exec_scope (exec f E T) fr body l buf1 s1
+      | None => Ok (OFall l buf1 s1)
+      end
+    | SFor v xs body =>
+      match lookup xs l with
+      | Some (VBytes bs) => exec_for (exec f E T) v body bs l buf s
+      | _ => Panic
+      end
+    | SIf c body =>
+      match eval_cond c l with
+      | Some true => exec_scope (exec f E T) [] body l buf s
+      | Some false => Ok (OFall l buf s)
+      | None => Panic
+      end
+    | SIfElse c a b =>
+      match eval_cond c l with
+      | Some true => exec_scope (exec f E T) [] a l buf s
+      | Some false => exec_scope (exec f E T) [] b l buf s
+      | None => Panic
+      end
+    | SLetMatch v sc arms =>
+      let* (w, buf1, s1) := eval_scrut (call_fn (exec f E T) T) E sc s buf in
+      match select_let arms w with
+      | Some (fr, AVar y) =>
+        match lookup y (fr :: l) with Some u => Ok (OFall (declare v u l) buf1 s1) | None => Panic end
+      | Some (fr, ADiverge body) =>
+        let* o := exec_scope (exec f E T) fr body l buf1 s1 in
+        match o with ORet _ _ _ => Ok o | OFall _ _ _ => Panic end
+      | None => Panic
+      end
     end
   end.
 
@@ -219,3 +310,23 @@ Fixpoint exec (fuel : nat) (E : env) (T : table) (x : stmt) (l : locals) (buf : 
 Definition run_scan (fuel : nat) (E : env) (T : table) (fn : string) (arg : option byte) (s : st) (buf : bytes)
   : res (retval * bytes * st) :=
   call_fn (exec fuel E T) T fn arg s buf.
+
+(* the same with an argument of any value kind (parse_ident takes the expected bytes, has_next_element / has_next_key the `first` flag) *)
+Definition params_frame_v (p : option string) (a : option val) : option frame :=
+  match p, a with
+  | None, None => Some []
+  | Some x, Some v => Some [(x, v)]
+  | _, _ => None
+  end.
+Definition run_scan_v (fuel : nat) (E : env) (T : table) (fn : string) (arg : option val) (s : st) (buf : bytes)
+  : res (retval * bytes * st) :=
+  match find_fn fn T with
+  | None => Panic
+  | Some d =>
+    match params_frame_v (fparam d) arg with
+    | None => Panic
+    | Some fr =>
+      let* o := exec_block (exec fuel E T) (fbody d) [fr] buf s in
+      match o with ORet r buf' s' => Ok (r, buf', s') | OFall _ _ _ => Panic end
+    end
+  end.
